@@ -795,7 +795,7 @@ class _Run:
                                  + (f" for the current source value x={curx}" if dep else ''))
                     continue
                 e = evs[-1]
-                if kind == 'sgen':
+                if kind in ('sgen', 'bsgen'):
                     # the creation order of plain sync generators is not observable (their bodies start inside
                     # executor jobs, in scheduler-chosen order) and all their evaluations are identical:
                     # any evaluation that ran to its end qualifies
